@@ -236,6 +236,9 @@ func (pr *priceReader) getRawTokenPriceE18Normalized(
 		return nil, fmt.Errorf("failed to get decimals for token %s: %w", token, err1)
 	}
 	answer := latestRoundData.Answer
+	if answer == nil {
+		return nil, fmt.Errorf("latestRoundData has no answer for token %s", token)
+	}
 	if decimals < 18 {
 		answer.Mul(answer, big.NewInt(0).Exp(big.NewInt(10), big.NewInt(18-int64(decimals)), nil))
 	} else if decimals > 18 {
